@@ -11,19 +11,19 @@ EXPLANATIONS = {
     "a page slot is written before the page length is published (Release) and readers load the length with Acquire; a full page "
     "refuses allocation; every mutable re-attachment of a slot's memo table is preceded by its exclusivity evidence (tracked write-lock "
     "swap, stale-slot selection under the shard lock, &mut Table); allocation/reclaim pairs (page data, memo boxes) agree; the "
-    "census of unsafe lifetime extensions is reported in the evidence. NOT decided: freedom from undefined behaviour in general "
+    "census of unsafe lifetime extensions is reported in the evidence. extend_memo_lifetime is called only on memos owned by this ingredient's memo table (loaded from it, or just inserted); unwrap_unchecked of a memo value only on refresh_memo's result, which is value-present on every return path. NOT decided: freedom from undefined behaviour in general "
     "(that needs Miri/sanitizers - a different technique family).",
     "C24": "Decided: a page index enters a handle's most_recent_pages only from fetch_or_push_page / push_page in the same call; "
     "take_non_full_page removes what it returns under the PAGES lock; unfilled pages are published only by draining the publisher's "
     "own map through &mut ZalsaLocal; an id is make_id(page, index) for the length read in the same allocate call, which is published "
     "only after the slot write; make_id/split_id are inverse for the page/slot bit split; Singleton uses a CAS from the empty state; "
-    "tracked free-list ids get a new generation (shared C07.1); ZalsaLocal is !Sync (type witness, thorough). Not decided: "
+    "tracked free-list ids get a new generation (shared C07.1); ZalsaLocal is !Sync (type witness, thorough). The page cache and the shared unfilled-page list are keyed by the ingredient asked on every path; a slot is allocated on the view of the same page index that goes into the id. Not decided: "
     "distinctness under concrete interleavings beyond these disciplines.",
     "C25": "Decided, given the arithmetic lemma in DESIGN.md: GENERATION_MASK + 1 == 1 << INGREDIENT_SHIFT, INGREDIENT_MASK == "
     "u32::MAX >> INGREDIENT_SHIFT <= IngredientIndex::MAX_INDEX (an output-tagged index never packs), tag masks pairwise disjoint; "
     "PackedQueryEdge::new rejects out-of-range ingredient/generation and otherwise stores index verbatim and generation | ingredient "
     "<< SHIFT; edge() decodes with the same constants; with_tag/tag/key use bit 31 consistently; input/output copy index and "
-    "generation; QueryEdge equality covers all fields. Not decided: order preservation through IndexSet (trusted), persistence "
+    "generation; QueryEdge equality covers all fields. OriginAndExtra: constructor / origin() / Drop use the same SliceWithHeader<H, E> instantiation per (extra?, packed|wide) tag combination; readers (iter, next, next_back, inputs, iter_outputs, output_edges) keep representation, direction and classify by the tag only; under persistence edges are written as raw (tagged) keys and read back field by field, origins keep their kind. Not decided: order preservation through IndexSet (trusted), persistence "
     "round trip (C26, thorough).",
 }
 
